@@ -79,12 +79,45 @@ func c16RandDoc(rnd *rand.Rand, fmtName string, blocks int) wpw.Doc {
 		hows = append(hows, "custom2")
 	}
 	noTbl := wpw.Tbl{Hm: [][]int{}, Vm: [][]int{}, Mp: [][]int{}, Rc: [][]int{}}
+	// a random style sheet: an arbitrary basedOn graph (chains, shared parents, cycles,
+	// undefined parents) satisfying WordDoc!SheetOK
+	odtLvl := 1 + rnd.Intn(4)
+	if rnd.Intn(2) == 0 {
+		n := 1 + rnd.Intn(5)
+		decls := []string{"none", "none", "builtin", "nameL", "nameU", "outline"}
+		if fmtName == "odt" {
+			decls = []string{"none", "none", "builtin", "bare", "outline"}
+		}
+		usedLvl := map[int]bool{}
+		for i := 0; i < n; i++ {
+			st := wpw.Style{Decl: decls[rnd.Intn(len(decls))], Lvl: 1 + rnd.Intn(4)}
+			if fmtName == "odt" {
+				st.Lvl = odtLvl
+			}
+			if st.Decl == "builtin" || st.Decl == "nameL" || st.Decl == "nameU" || st.Decl == "bare" {
+				if usedLvl[st.Lvl] {
+					st.Decl = "none"
+				}
+				usedLvl[st.Lvl] = usedLvl[st.Lvl] || st.Decl != "none"
+			}
+			st.Based = []int{-2, -1, 0, 1 + rnd.Intn(n), 1 + rnd.Intn(n), 1 + rnd.Intn(n)}[rnd.Intn(6)]
+			d.Sheet = append(d.Sheet, st)
+		}
+	}
 	for len(d.Body) < blocks {
+		if len(d.Sheet) > 0 && rnd.Intn(4) == 0 {
+			d.Body = append(d.Body, wpw.Block{K: "S", Ch: c16RandChildren(rnd, fmtName, 2, 2), Lvl: odtLvl, Sty: 1 + rnd.Intn(len(d.Sheet)), Tb: noTbl})
+			continue
+		}
 		switch rnd.Intn(6) {
 		case 0, 1:
 			d.Body = append(d.Body, wpw.Block{K: "P", Ch: c16RandChildren(rnd, fmtName, 4, 4), Tb: noTbl})
 		case 2:
-			d.Body = append(d.Body, wpw.Block{K: "H", Ch: c16RandChildren(rnd, fmtName, 2, 2), Lvl: 1 + rnd.Intn(6), How: hows[rnd.Intn(len(hows))], Tb: noTbl})
+			how := hows[rnd.Intn(len(hows))]
+			if len(d.Sheet) > 0 {
+				how = "outline" // the fixed heading styles are not part of a document with its own sheet
+			}
+			d.Body = append(d.Body, wpw.Block{K: "H", Ch: c16RandChildren(rnd, fmtName, 2, 2), Lvl: 1 + rnd.Intn(6), How: how, Tb: noTbl})
 		case 3: // a run of list items: starts at depth 0, deepens by at most one
 			num := []string{"bullet", "decimal"}[rnd.Intn(2)]
 			lvl := 0
